@@ -253,7 +253,10 @@ def run_calibration(prog, rep):
     apc = [c for c in io0.calls() if (c.callee or {}).get('name') == 'getDataDirect']
     calib = [c for c in apc if "'nix::DataType::Double'" in repr([term(unwrap(a)) for a in real_args(c) if a is not None][:1])]
     if not calib:
-        raise AnalysisBroken('R-CALIB: the Double read of the calibrated branch was not found')
+        # no Double read at all: the path clauses below report that; the text clause is then decided at the polynomial call
+        calib = [c for c in io0.calls() if (c.callee or {}).get('name') == 'applyPolynomial']
+        if not calib:
+            raise AnalysisBroken('R-CALIB: neither the Double read nor applyPolynomial found in DataArray::ioRead')
     fct = Sem(prog).facts_at(io0, calib[0].id)
     dt = io0.params[0]['name']
     nostr = any(isinstance(t, tuple) and len(t) == 4 and t[0] in ('b', 'op') and dt in repr(t) and "'nix::DataType::String'" in repr(t) and ((t[1] == '==' and pol is False) or (t[1] == '!=' and pol is True)) for t, pol in fct)
